@@ -12,6 +12,7 @@ Inductive trans (c : cfg) (s : state) : label -> state -> Prop :=
 | tr_achk_panic s' : t_achk_panic c s = Some s' -> trans c s Ltp s'
 | tr_achk_busy s' : t_achk_busy c s = Some s' -> trans c s Ltb s'
 | tr_achk_ok s' : t_achk_ok c s = Some s' -> trans c s Tachk s'
+| tr_afail s' : t_afail c s = Some s' -> trans c s Lte s'
 | tr_apush k s' : t_apush c s = Some (k, s') -> trans c s (Lpush k) s'
 | tr_hquit s' : t_hquit c s = Some s' -> trans c s Thquit s'
 | tr_hb s' : t_hb c s = Some s' -> trans c s Lhb s'
@@ -47,7 +48,7 @@ Proof.
     destruct (t_apush c s) as [[k x]|] eqn:E; cbn in H; [|contradiction].
     destruct H as [H|[]]. inversion H; subst. constructor. exact E.
   - intros H.
-    destruct H as [x H|x H|x H|x H|k x H|x H|x H|x H|x H|x H|x H|x H|x H|x H|x H|x H|x H|x H|x H|x H];
+    destruct H as [x H|x H|x H|x H|x H|k x H|x H|x H|x H|x H|x H|x H|x H|x H|x H|x H|x H|x H|x H|x H|x H];
       repeat rewrite in_app_iff; rewrite ?opt1_in; rewrite ?H; cbn; tauto.
 Qed.
 
@@ -70,12 +71,12 @@ Ltac break_match_hyp H :=
          end.
 
 Ltac t_inv H :=
-  unfold t_ann, t_achk_panic, t_achk_busy, t_achk_ok, t_apush, t_hquit, t_hb, t_hc, t_kinit, t_kquit,
+  unfold t_ann, t_achk_panic, t_achk_busy, t_achk_ok, t_afail, t_apush, t_hquit, t_hb, t_hc, t_kinit, t_kquit,
     t_ktake, t_kabort, t_kupd, t_kpush, t_kchk, t_jsusp, t_jres, t_sclose, t_swait, t_sdb in H;
   break_match_hyp H; inversion H; subst; clear H.
 
 Ltac trans_cases H :=
-  destruct H as [x H|x H|x H|x H|k x H|x H|x H|x H|x H|x H|x H|x H|x H|x H|x H|x H|x H|x H|x H|x H];
+  destruct H as [x H|x H|x H|x H|x H|k x H|x H|x H|x H|x H|x H|x H|x H|x H|x H|x H|x H|x H|x H|x H|x H];
   t_inv H.
 
 (* ---------------------------------------------------------------- every step makes progress *)
@@ -256,7 +257,7 @@ Proof.
   apply IH. apply step_trans in Hs. destruct Hs as [l Hs]. eapply no_stop_trans; eassumption.
 Qed.
 
-Ltac enabled t := eapply trans_can_step; eapply t; unfold t_ann, t_achk_panic, t_achk_busy, t_achk_ok, t_apush, t_hquit, t_hb, t_hc, t_kinit, t_kquit,
+Ltac enabled t := eapply trans_can_step; eapply t; unfold t_ann, t_achk_panic, t_achk_busy, t_achk_ok, t_afail, t_apush, t_hquit, t_hb, t_hc, t_kinit, t_kquit,
     t_ktake, t_kabort, t_kupd, t_kpush, t_kchk, t_jsusp, t_jres, t_sclose, t_swait, t_sdb, quit.
 
 Lemma no_deadlock_running c s : cfg_ok c -> reachable c s -> spc s = Sidle -> can_step c s \/ idle s.
@@ -277,8 +278,8 @@ Proof.
                  --- right. unfold idle. rewrite Eh, Ek, Ea, Eq, Et, Eb, Ee, Est. tauto.
                  --- left. enabled tr_ann. rewrite Hs, Eb, Eq.
                      destruct (0 <? qcap c) eqn:El; [reflexivity|]. apply Nat.ltb_ge in El. lia.
-              ** left. enabled tr_achk_ok. rewrite Ea, Ee, Ek, Et. cbn. reflexivity.
-           ++ left. enabled tr_apush. rewrite Ea. reflexivity.
+              ** left. enabled tr_achk_ok. rewrite Hs, Ea, Ee, Ek, Et. cbn. reflexivity.
+           ++ left. enabled tr_apush. rewrite Hs, Ea. reflexivity.
         -- left. enabled tr_hb. rewrite Eh, Eq. reflexivity.
       * left. enabled tr_ktake. rewrite Ek, Et. reflexivity.
     + destruct st.
